@@ -62,6 +62,9 @@ float K_clamp01(float x) { return clamp(x); }
 int K_divRoundUp_i(int a, int b) { return divRoundUp(a, b); }
 unsigned K_divRoundUp_u(unsigned a, unsigned b) { return divRoundUp(a, b); }
 size_t K_divRoundUp_ul(size_t a, size_t b) { return divRoundUp(a, b); }
+// element types narrower than int (vec2uc / vec3s ... instantiate them): the operands are promoted, only the quotient is narrowed
+unsigned char K_divRoundUp_u8(unsigned char a, unsigned char b) { return divRoundUp(a, b); }
+short K_divRoundUp_s16(short a, short b) { return divRoundUp(a, b); }
 float K_sign(float x) { return sign(x); }
 float K_lerp(float f, float a, float b) { return lerp(f, a, b); }
 double K_lerp_d(float f, double a, double b) { return lerp(f, a, b); }
